@@ -69,7 +69,8 @@ type Message struct {
 	ReservedNames []string
 	Options       []Opt
 	OneofOpts     map[int][]Opt // options declared inside oneof bodies
-	ExtRangeOpts  []Opt         // options of the (single) extensions statement
+	ExtRangeOpts  []Opt         // options of the extensions statement(s)
+	ExtSplit      bool          // print one extensions statement per range (same options on each)
 	IsGroup       bool
 	Editions      bool // declared in an editions file (reserved names are identifiers)
 }
